@@ -194,6 +194,9 @@ def rand_ops(rng, stack, n, keys):
     return ops
 
 
+KEYCAP = int(os.environ.get("VERIF_KEYCAP", "60"))
+
+
 def validate_random(out, d, seed, n_prog, n_ops, n_variants):
     rng = random.Random(seed * 104729 + 7)
     base_progs = []
@@ -251,8 +254,20 @@ def validate_random(out, d, seed, n_prog, n_ops, n_variants):
     pairs = list(zip(progs, obs))
     n_events = 0
     seen = set()
-    for b0 in range(0, len(pairs), 40):
-        batch = pairs[b0:b0 + 40]
+    # every map of the specification ranges over the union of the batch's keys and the cost per event grows
+    # faster than linearly with it: a batch is closed when its key universe reaches KEYCAP (or 40 programs)
+    batches, cur, curkeys = [], [], set()
+    for p, r in pairs:
+        pk = {tuple(kv[0]) for kv in p["init"]} | {tuple(sum([l["p"] for l in reversed(p["stack"]) if l["t"] == "prefix"], []) + list(k)) for k in p["keys"]}
+        if cur and (len(curkeys | pk) > KEYCAP or len(cur) >= 40):
+            batches.append(cur)
+            cur, curkeys = [], set()
+        cur.append((p, r))
+        curkeys |= pk
+    if cur:
+        batches.append(cur)
+    out.notes["trace_validation_batches"] = len(batches)
+    for batch in batches:
         stacks, events, index = [], [], []
         for p, r in batch:
             if nocap(p["stack"]) not in stacks:
@@ -307,7 +322,7 @@ def validate_random(out, d, seed, n_prog, n_ops, n_variants):
             report(out, q, j, field, want, got, "random program")
     out.notes.setdefault("tlc_runs", []).append(
         {"label": "trace validation of %d random programs (%d with gas limits / overflow rooms around the cumulative costs), "
-                  "%d events in %d batches" % (len(progs), len(progs) - len(base_progs), n_events, (len(pairs) + 39) // 40),
+                  "%d events in %d batches" % (len(progs), len(progs) - len(base_progs), n_events, len(batches)),
          "distinct": n_events, "generated": n_events})
     out.cov["traces_validated_against_impl"] += len(progs)
     out.notes["random_trace_validation"] = {"programs": len(progs), "base_programs": len(base_progs), "ops_each": n_ops,
